@@ -1,6 +1,7 @@
 package scen
 
 import (
+	"strings"
 	"fmt"
 	"math/rand/v2"
 	"sort"
@@ -98,6 +99,16 @@ func (c14) Gen(r *rand.Rand, tier string, run int) *core.Case {
 			c.Ops = append(c.Ops, core.Op{Kind: "gauge", Actor: 67, X: int64(500 + i)})
 		}
 	}
+	if r.IntN(3) == 0 {
+		// a third property, of type string, published by a goroutine of the
+		// service: some of its values are beyond any plausible threshold of
+		// the write path. Its events travel to the subscribers' connections
+		// beside those of the judged property
+		c.Params["labels"] = 1
+		for i := 0; i < 2+r.IntN(5); i++ {
+			c.Ops = append(c.Ops, core.Op{Kind: "label", Actor: 68, X: int64(i + 1), Y: int64([]int{0, 100, 4096, 5000, 9000, 70000}[r.IntN(6)])})
+		}
+	}
 	var lastUpdate int64
 	for i := 0; i < updates; i++ {
 		if lastUpdate != 0 && r.IntN(3) == 0 {
@@ -140,6 +151,10 @@ type c14state struct {
 	closed []bool
 	seen   map[int32]int64 // value -> sequence number at which a subscriber first received its change event
 	subErr error
+	// (the string property) numbers of the values published, and of those
+	// each subscriber received (0: a value that is none of those published)
+	labelsSent []int
+	labels     [][]int
 }
 
 func (c14) Run(c *core.Case, env *core.Env) {
@@ -262,6 +277,7 @@ func (c14) Run(c *core.Case, env *core.Env) {
 	// subscribers, each on its own connection, subscribed for the whole run
 	nSub := c.P("subscribers", 1)
 	st.events = make([][]int32, nSub)
+	st.labels = make([][]int, nSub)
 	st.closed = make([]bool, nSub)
 	for i := 0; i < nSub; i++ {
 		cl, err := Connect(fmt.Sprintf("subscriber%d", i), "u", "p")
@@ -318,6 +334,20 @@ func (c14) Run(c *core.Case, env *core.Env) {
 					cancel()
 				}
 			}
+		}
+		if c.P("labels", 0) == 1 {
+			_, lch, err := p.SubscribeLabel()
+			if err != nil {
+				env.Violate("setup/subscribe-label", "%v", err)
+				return
+			}
+			go func(i int) {
+				for v := range lch {
+					st.mu.Lock()
+					st.labels[i] = append(st.labels[i], c14labelNo(v))
+					st.mu.Unlock()
+				}
+			}(i)
 		}
 		_, ch, err := p.SubscribeLevel()
 		if err != nil {
@@ -452,6 +482,14 @@ func (c14) Run(c *core.Case, env *core.Env) {
 					h := env.Invoke(a, "set", strconv.Itoa(int(op.X)))
 					err := direct.SetLevel(int32(op.X))
 					env.Return(h, "", err)
+				case "label":
+					h := env.Invoke(a, "label", fmt.Sprintf("%d pad=%d", op.X, op.Y))
+					err := targetImpl.Helper.UpdateLabel(c14label(int(op.X), int(op.Y)))
+					env.Return(h, "", err)
+					st.mu.Lock()
+					st.labelsSent = append(st.labelsSent, int(op.X))
+					st.mu.Unlock()
+					env.Probe("large-values-of-another-property-published-meanwhile")
 				case "gauge":
 					h := env.Invoke(a, "gauge", strconv.Itoa(int(op.X)))
 					err := targetImpl.Helper.UpdateGauge(int32(op.X))
@@ -510,6 +548,10 @@ func (c14) Check(c *core.Case, env *core.Env, res zzsim.Result, v *core.Verdict)
 			} else if h.OK && h.Out != h.Arg {
 				bad("other-property/reverted", "the object's second property was written %s by its only writer and read back %s at once", h.Arg, h.Out)
 			}
+		case "label":
+			if !h.OK && !containsStr(h.Err, "victim-broken") {
+				bad("other-property/failed", "publishing a value of the object's string property failed: %s", h)
+			}
 		case "set-rejected":
 			if h.OK {
 				bad("rejected-write-accepted", "a write the validator rejects was acknowledged: %s", h)
@@ -545,6 +587,16 @@ func (c14) Check(c *core.Case, env *core.Env, res zzsim.Result, v *core.Verdict)
 	if pending || !res.Quiescent {
 		return
 	}
+	// the string property: every subscriber (subscribed before the first
+	// value, for the whole run) receives the values published, each once,
+	// in order and intact
+	if c.P("labels", 0) == 1 && res.Quiescent {
+		for i, got := range st.labels {
+			if fmt.Sprint(got) != fmt.Sprint(st.labelsSent) && !(len(got) == 0 && len(st.labelsSent) == 0) {
+				bad("other-property/events", "subscriber %d received the values %v of the object's string property (0: a value nobody published); the service published %v", i, got, st.labelsSent)
+			}
+		}
+	}
 	// change events: exactly one per accepted write, carrying the new value
 	sort.Slice(accepted, func(i, j int) bool { return accepted[i] < accepted[j] })
 	for i, evs := range st.events {
@@ -579,6 +631,21 @@ func (c14) Check(c *core.Case, env *core.Env, res zzsim.Result, v *core.Verdict)
 	ov := overlapping(hs)
 	env.ProbeN("overlapping-op-pairs", ov)
 	v.Nontrivial = ov > 0 && v.Stats.Switches > 0
+}
+
+// c14label is the n-th value of the string property: its number, then a
+// padding of the given length; c14labelNo recovers the number of a value that
+// is intact (0 otherwise).
+func c14label(n, pad int) string {
+	return fmt.Sprintf("%d|%d|", n, pad) + strings.Repeat("L", pad)
+}
+
+func c14labelNo(s string) int {
+	var n, pad int
+	if _, err := fmt.Sscanf(s, "%d|%d|", &n, &pad); err != nil || s != c14label(n, pad) {
+		return 0
+	}
+	return n
 }
 
 func containsStr(s, sub string) bool {
